@@ -847,7 +847,12 @@ func (self *pnSlice) Swap(i, j int) {
 }
 
 func (self pnSlice) Less(i, j int) bool {
-	return int(uintptr(self.a[i].Node.v)) < int(uintptr(self.a[j].Node.v))
+	vi, vj := self.a[i].Node.v, self.a[j].Node.v
+	// new nodes have no address and go last
+	if vi == nil || vj == nil {
+		return vi != nil && vj == nil
+	}
+	return uintptr(vi) < uintptr(vj)
 }
 
 func (self *pnSlice) Sort() {
